@@ -695,6 +695,11 @@ func equivalentCheckConfigInV2(
 	ruleType check.RuleType,
 	checkConfig bufconfig.CheckConfig,
 ) (bufconfig.CheckConfig, error) {
+	if checkConfig.Disabled() {
+		// Checks that are switched off (an ignore path that names the module itself)
+		// stay switched off, there are no rules to translate.
+		return bufconfig.NewDisabledCheckConfig(bufconfig.FileVersionV2), nil
+	}
 	// No need for custom lint/breaking plugins since there's no plugins to migrate from <=v1.
 	// TODO: If we ever need v3, then we will have to deal with this.
 	client, err := bufcheck.NewClient(logger, bufcheck.NewLocalRunnerProvider(
